@@ -378,3 +378,134 @@ Print Assumptions model_is_code_locale_ordinal.
 Theorem model_is_code_locale_ordinalize : forall L n, glue_Locale_ordinalize L n = ordinalize L n.
 Proof. exact glue_Locale_ordinalize_spec. Qed.
 Print Assumptions model_is_code_locale_ordinalize.
+
+(* ------------------------------------------------------------------------------------------------------------------------------
+   operands handed in as NATIVE values (Model/DiffHumansNative.v; stream instants-native): x.diff_for_humans(native),
+   pendulum.interval(native, native).in_words() / format_diff(...).  Interval.__new__ works on the values as given (a0, b0), __init__ on
+   pendulum.instance of them (a, b) — datetime SUBCLASS instances that go to precise_diff as they are. *)
+From PV Require Import Model.DiffHumansNative Proofs.C18Native.
+
+(* the result does not depend on how the operand was handed in, whenever both views order the pair alike *)
+Theorem native_operand_transparent : forall rs a0 b0 a b,
+  p_comparable a b = true -> p_gtb a0 b0 = p_gtb a b ->
+  iv_elapsed a0 b0 = iv_elapsed a b -> iv_elapsed b0 a0 = iv_elapsed b a ->
+  diff_comps_native rs true a0 b0 a b = diff_comps rs a b.
+Proof. exact native_transparent_lemma. Qed.
+Print Assumptions native_operand_transparent.
+
+(* ... in particular for aware values in different zones (different tzinfo objects in both views) or with equal offsets *)
+Theorem native_aware_operand_transparent : forall rs a b ja jb,
+  p_aware a = true -> p_aware b = true ->
+  ((p_tzobj a <> p_tzobj b /\ ja <> jb) \/ p_offset a = p_offset b) ->
+  diff_comps_native rs true (as_given a (p_has_tz a) ja) (as_given b (p_has_tz b) jb) a b = diff_comps rs a b.
+Proof. exact native_aware_transparent_lemma. Qed.
+Print Assumptions native_aware_operand_transparent.
+
+Example native_operand_hypotheses_satisfiable :
+  p_comparable n_paris_1200 n_paris_1500 = true /\ p_aware n_paris_1200 = true /\ p_tzobj n_paris_1200 = p_tzobj n_paris_1500 /\
+  p_offset n_paris_1200 = p_offset n_paris_1500.
+Proof. exact native_hypotheses_satisfiable. Qed.
+
+(* a reference three hours later in the same zone, given as a stdlib datetime: 3 hours with BOTH backends, either direction; two native
+   values in different zones 45 minutes apart: 45 minutes (the offset of a datetime-subclass operand is read, not taken as 0) *)
+Theorem native_reference_three_hours :
+  let a := n_paris_1200 in let b := n_paris_1500 in let b0 := as_given b true 101 in
+  diff_comps_native false true a b0 a b = Ok (mkcomp 0 0 0 0 3 0 0, false) /\
+  diff_comps_native true true a b0 a b = Ok (mkcomp 0 0 0 0 3 0 0, false) /\
+  diff_comps_native false true b0 a b a = Ok (mkcomp 0 0 0 0 3 0 0, true) /\
+  diff_comps_native true true b0 a b a = Ok (mkcomp 0 0 0 0 3 0 0, true) /\
+  (let x := n_tokyo_2100 in let y := n_ny_0845 in
+   diff_comps_native false false (as_given x true 104) (as_given y true 103) x y = Ok (mkcomp 0 0 0 0 0 45 0, false) /\
+   diff_comps_native true false (as_given x true 104) (as_given y true 103) x y = Ok (mkcomp 0 0 0 0 0 45 0, false)).
+Proof. exact native_reference_three_hours_lemma. Qed.
+Print Assumptions native_reference_three_hours.
+
+(* finding same-tzinfo-wall-order, native flavour: transparency FAILS inside a repeated hour (instant order in __new__, wall order in __init__) *)
+Theorem native_operand_transparent_refuted : exists a b jb c1 c2,
+  p_instant b - p_instant a = 1807 * 1000000 /\
+  diff_comps true a b = Ok (c1, true) /\
+  diff_comps_native true true a (as_given b true jb) a b = Ok (c2, true) /\ c_rsecs c1 = -7 /\ c_rsecs c2 = 7.
+Proof. exact native_not_transparent_refuted_lemma. Qed.
+Print Assumptions native_operand_transparent_refuted.
+
+(* finding native-naive-operand: "without raising" is false for a naive pendulum DateTime against a naive native datetime *)
+Theorem native_total_refuted : exists a b0 b, forall rs iv_abs,
+  p_aware a = false /\ p_aware b0 = false /\ p_wall b0 = p_wall b /\
+  diff_comps_native rs iv_abs a b0 a b = Raise E_TypeError.
+Proof. exact native_naive_reference_refuted_lemma. Qed.
+Print Assumptions native_total_refuted.
+
+(* ... and holds on the region where Interval.__init__ keeps two values of one kind (compiled helper: total there) *)
+Theorem native_total_partial : forall iv_abs a0 b0 a b, p_comparable a b = true ->
+  exists ci, diff_comps_native true iv_abs a0 b0 a b = Ok ci.
+Proof. exact native_total_partial_lemma. Qed.
+Print Assumptions native_total_partial.
+
+Theorem native_raises_only_for_mixed_kinds : forall rs iv_abs a0 b0 a b, p_comparable a b = false ->
+  diff_comps_native rs iv_abs a0 b0 a b = Raise E_TypeError.
+Proof. exact native_raises_only_type_error. Qed.
+Print Assumptions native_raises_only_for_mixed_kinds.
+
+Theorem format_diff_native_total : forall L rs iv_abs a0 b0 a b absolute ci, In L all_locales ->
+  diff_comps_native rs iv_abs a0 b0 a b = Ok ci ->
+  exists s, format_diff_native L rs iv_abs a0 b0 a b absolute = Ok s /\ s <> [] /\ brace_free s.
+Proof. exact format_diff_native_total_lemma. Qed.
+Print Assumptions format_diff_native_total.
+
+Theorem native_direction_is_init_order : forall rs iv_abs a0 b0 a b c inv,
+  diff_comps_native rs iv_abs a0 b0 a b = Ok (c, inv) -> inv = p_gtb a b.
+Proof. exact native_invert_is_gtb. Qed.
+Print Assumptions native_direction_is_init_order.
+
+(* ---- model = code, continued: Locale.get / Locale.translation (locales/locale.py), translated from /repo on every run (Gen/HumanizeGlue.v):
+   key.split("."), the walk through the nested dicts, `except KeyError: result = default`, the per-object memo _key_cache threaded as explicit state.
+   dotted [p1; ...; pn] is the str "p1.p2...pn"; kc_ok L c: every entry of the memo is what a fresh call on its key returns (holds of the empty memo,
+   preserved by get and translation). ---- *)
+Theorem model_is_code_locale_get : forall L c path, kc_ok L c -> path <> [] -> forallb (fun s => dot_free (pstr_of_string s)) path = true ->
+  match glue_Locale_get c L (dotted path) None with
+  | Ok (v, c') => lget L path = Ok v /\ kc_ok L c'
+  | Raise e => lget L path = Raise e
+  end.
+Proof. exact glue_Locale_get_spec. Qed.
+Print Assumptions model_is_code_locale_get.
+
+Theorem model_is_code_locale_translation : forall L c path, kc_ok L c -> path <> [] -> forallb (fun s => dot_free (pstr_of_string s)) path = true ->
+  match glue_Locale_translation c L (dotted path) with
+  | Ok (v, c') => lget L ("translations"%string :: path) = Ok v /\ kc_ok L c'
+  | Raise e => lget L ("translations"%string :: path) = Raise e
+  end.
+Proof. exact glue_Locale_translation_spec. Qed.
+Print Assumptions model_is_code_locale_translation.
+
+(* for ANY key (dotted or not): what get returns does not depend on what _key_cache holds *)
+Theorem locale_key_cache_transparent : forall L c1 c2 key, kc_ok L c1 -> kc_ok L c2 ->
+  match glue_Locale_get c1 L key None, glue_Locale_get c2 L key None with
+  | Ok (v1, _), Ok (v2, _) => v1 = v2
+  | Raise e1, Raise e2 => e1 = e2
+  | _, _ => False
+  end.
+Proof. exact key_cache_is_transparent. Qed.
+Print Assumptions locale_key_cache_transparent.
+
+Theorem locale_key_cache_starts_ok : forall L, kc_ok L [].
+Proof. exact kc_ok_nil. Qed.
+Print Assumptions locale_key_cache_starts_ok.
+
+(* the hand primitives that model_is_code_in_words_* and model_is_code_locale_ordinalize are stated over ARE these translations, for every key those
+   functions build on a shipped locale (the unit names and every plural / ordinal class of every shipped locale contain no dot: computed) *)
+Theorem in_words_translation_is_code : forall L c w u n, In (gl_data L) all_locales -> kc_ok (gl_data L) c ->
+  In u (List.app (map fst (glue_Duration_in_words_intervals w)) ["second"%string; "microsecond"%string]) ->
+  match glue_Locale_translation c (gl_data L) (dotted ["units"%string; u; loc_plural L n]) with
+  | Ok (v, c') => loc_translation L (mk_ukey u (loc_plural L n)) = Ok v /\ kc_ok (gl_data L) c'
+  | Raise e => loc_translation L (mk_ukey u (loc_plural L n)) = Raise e
+  end.
+Proof. exact HumanizeGlueFacts.in_words_translation_is_code. Qed.
+Print Assumptions in_words_translation_is_code.
+
+Theorem ordinalize_get_is_code : forall L c n, In L all_locales -> kc_ok L c ->
+  match glue_Locale_get c L (dotted ["custom"%string; "ordinal"%string; glue_Locale_ordinal L n]) None with
+  | Ok (v, c') => loc_get_custom_ordinal L (glue_Locale_ordinal L n) = Ok v /\ kc_ok L c'
+  | Raise e => loc_get_custom_ordinal L (glue_Locale_ordinal L n) = Raise e
+  end.
+Proof. exact HumanizeGlueFacts.ordinalize_get_is_code. Qed.
+Print Assumptions ordinalize_get_is_code.
